@@ -74,37 +74,104 @@ func safeCall(f func()) string {
 var watchdog = 20 * time.Second
 
 // Argument registry (input immutability, C12): every slice handed to the library is produced by one of the
-// conversion helpers below; each is registered together with a deep snapshot, and argsUnchanged() compares the
-// live slices (the very backing arrays the library received) with their snapshots. The writer clears the
-// registry after every emitted event.
+// conversion helpers below. Each is allocated with spare capacity holding sentinel values (a caller may pass a
+// sub-slice of a larger buffer: what lies behind len() is the caller's data too) and registered together with a
+// deep snapshot of its whole capacity; argsUnchanged() compares the live backing arrays (the very memory the
+// library received) with the snapshots. The writer clears the registry after every emitted event.
 type argRec struct {
-	live64, snap64 clipper.Path64
-	liveD, snapD   clipper.PathD
+	live64, snap64   clipper.Path64 // whole capacity
+	liveD, snapD     clipper.PathD
+	liveO64, snapO64 clipper.Paths64 // outer arrays (path headers), whole capacity
+	liveOD, snapOD   clipper.PathsD
 }
 
 var argRegistry []argRec
 
+const spareCap = 2
+
+var sentinel64 = clipper.Point64{X: 7777777, Y: -7777777}
+var sentinelD = clipper.PointD{X: 7777777.5, Y: -7777777.5}
+var sentinelPath64 = clipper.Path64{{X: 1234567, Y: 7654321}}
+var sentinelPathD = clipper.PathD{{X: 1234567.5, Y: 7654321.5}}
+
+// newPath64 / newPathD: a path of n points with spare capacity filled with sentinels
+func newPath64(n int) clipper.Path64 {
+	full := make(clipper.Path64, n+spareCap)
+	for i := n; i < len(full); i++ {
+		full[i] = sentinel64
+	}
+	return full[:n]
+}
+
+func newPathD(n int) clipper.PathD {
+	full := make(clipper.PathD, n+spareCap)
+	for i := n; i < len(full); i++ {
+		full[i] = sentinelD
+	}
+	return full[:n]
+}
+
+func newPaths64(n int) clipper.Paths64 {
+	full := make(clipper.Paths64, n+spareCap)
+	for i := n; i < len(full); i++ {
+		full[i] = sentinelPath64
+	}
+	return full[:n]
+}
+
+func newPathsD(n int) clipper.PathsD {
+	full := make(clipper.PathsD, n+spareCap)
+	for i := n; i < len(full); i++ {
+		full[i] = sentinelPathD
+	}
+	return full[:n]
+}
+
 func regPath64(p clipper.Path64) clipper.Path64 {
-	if len(argRegistry) < 4096 {
-		argRegistry = append(argRegistry, argRec{live64: p, snap64: append(clipper.Path64{}, p...)})
+	if len(argRegistry) < 8192 {
+		full := p[:cap(p)]
+		argRegistry = append(argRegistry, argRec{live64: full, snap64: append(clipper.Path64{}, full...)})
 	}
 	return p
 }
 
 func regPathD(p clipper.PathD) clipper.PathD {
-	if len(argRegistry) < 4096 {
-		argRegistry = append(argRegistry, argRec{liveD: p, snapD: append(clipper.PathD{}, p...)})
+	if len(argRegistry) < 8192 {
+		full := p[:cap(p)]
+		argRegistry = append(argRegistry, argRec{liveD: full, snapD: append(clipper.PathD{}, full...)})
 	}
 	return p
 }
 
+// regPaths64 / regPathsD register the outer array (the path headers, whole capacity) of a path set
+func regPaths64(s clipper.Paths64) clipper.Paths64 {
+	if len(argRegistry) < 8192 {
+		full := s[:cap(s)]
+		argRegistry = append(argRegistry, argRec{liveO64: full, snapO64: append(clipper.Paths64{}, full...)})
+	}
+	return s
+}
+
+func regPathsD(s clipper.PathsD) clipper.PathsD {
+	if len(argRegistry) < 8192 {
+		full := s[:cap(s)]
+		argRegistry = append(argRegistry, argRec{liveOD: full, snapOD: append(clipper.PathsD{}, full...)})
+	}
+	return s
+}
+
 func resetArgs() { argRegistry = argRegistry[:0] }
+
+func sameHeader64(a, b clipper.Path64) bool {
+	return len(a) == len(b) && cap(a) == cap(b) && (cap(a) == 0 || &a[:1][0] == &b[:1][0])
+}
+
+func sameHeaderD(a, b clipper.PathD) bool {
+	return len(a) == len(b) && cap(a) == cap(b) && (cap(a) == 0 || &a[:1][0] == &b[:1][0])
+}
 
 func argsUnchanged() bool {
 	for _, a := range argRegistry {
-		if len(a.live64) != len(a.snap64) || len(a.liveD) != len(a.snapD) {
-			return false
-		}
 		for i := range a.live64 {
 			if a.live64[i] != a.snap64[i] {
 				return false
@@ -112,6 +179,16 @@ func argsUnchanged() bool {
 		}
 		for i := range a.liveD {
 			if a.liveD[i] != a.snapD[i] {
+				return false
+			}
+		}
+		for i := range a.liveO64 {
+			if !sameHeader64(a.liveO64[i], a.snapO64[i]) {
+				return false
+			}
+		}
+		for i := range a.liveOD {
+			if !sameHeaderD(a.liveOD[i], a.snapOD[i]) {
 				return false
 			}
 		}
@@ -123,7 +200,7 @@ func to64(p Path) clipper.Path64 {
 	if p == nil {
 		return nil
 	}
-	out := make(clipper.Path64, len(p))
+	out := newPath64(len(p))
 	for i, q := range p {
 		out[i] = clipper.Point64{X: q[0], Y: q[1]}
 	}
@@ -134,11 +211,11 @@ func toPaths64(s Paths) clipper.Paths64 {
 	if s == nil {
 		return nil
 	}
-	out := make(clipper.Paths64, len(s))
+	out := newPaths64(len(s))
 	for i, q := range s {
 		out[i] = to64(q)
 	}
-	return out
+	return regPaths64(out)
 }
 
 func from64(p clipper.Path64) Path {
